@@ -110,6 +110,19 @@ structure Dom (s : Song) : Prop where
   /-- the song is shorter than 2^32 ticks (deltas are `uint32`) -/
   fits : songEnd s < 4294967296
 
+/-- the track numbers that carry an event, ascending, without duplicates -/
+def usedTracks (s : Song) : List Nat := trackNos (specEvents (tq s) (laid (tq s) 0 s.bars))
+
+/-- the time-signature events the property prescribes -/
+def specSigs (s : Song) : List (Nat × Msg) := sigChanges (4, 4) (laid (tq s) 0 s.bars)
+
+/-- the events and note-offs the property prescribes, (tick, message), all tracks -/
+def specAll (s : Song) : List (Nat × Msg) := (specEvents (tq s) (laid (tq s) 0 s.bars)).map tm
+
+/-- … and those of track number `n` -/
+def specOn (s : Song) (n : Nat) : List (Nat × Msg) :=
+  ((specEvents (tq s) (laid (tq s) 0 s.bars)).filter (fun e => e.trackNo = n)).map tm
+
 /-- what is assumed of `sort.Sort`: a permutation in non-decreasing tick order -/
 def SortSpec (srt : List TEv → List TEv) : Prop :=
   ∀ l, (srt l).Perm l ∧ (srt l).Pairwise (fun a b => a.abs ≤ b.abs)
